@@ -458,9 +458,11 @@ def mitm_count(seed, conf, which):
     return len(rewrites(random.Random(1), sim.net[0].data))
 
 
-def mitm_case(ck, seed, conf, which, k, rng):
+def mitm_case(ck, seed, conf, which, k, rng, then_genuine=False):
+    """then_genuine: the man in the middle delivers its rewritten copy FIRST and lets the genuine datagram follow right behind it (the receiver has acted on
+    the rewritten one by then; whatever it does with the second copy, it must not end up established on what the first one said)."""
     sim, a, b = S.make_pair(seed, **conf)
-    sim.case = {'family': 'mitm', 'conf': conf, 'message': which}
+    sim.case = {'family': 'mitm', 'conf': conf, 'message': which, 'genuine_copy_follows_the_rewritten_one': then_genuine}
     sim.acquire(a, 0)
     if which == 'response':
         sim.deliver(0)
@@ -476,6 +478,7 @@ def mitm_case(ck, seed, conf, which, k, rng):
     n0 = newsa_count(receiver)
     want_r = 0x20 if which == 'response' else 0
     altered_n = 0
+    acted_on = []            # local SPIs of the IKE_SAs the receiver built on a rewritten copy (then_genuine mode)
 
     def pump(limit=60):
         # a persistent man in the middle: EVERY IKE_SA_INIT message of that direction gets the same rewrite (retries after
@@ -488,9 +491,21 @@ def mitm_case(ck, seed, conf, which, k, rng):
             if len(d.data) > 28 and d.data[18] == 34 and (d.data[19] & 0x20) == want_r and d.dst == str(receiver.addrs[0]):
                 same = [x for x in rewrites(ck.rng('mitm-again', label, altered_n), d.data) if x[0] == label]
                 if same:
+                    genuine = d.data
                     d.data = same[0][2]
                     altered = d.data
                     altered_n += 1
+                    if then_genuine:
+                        rec1 = sim.deliver(0)
+                        # did the receiver ACT on the rewritten copy (a full IKE_SA_INIT response / an IKE_AUTH request went out)? A copy it dropped deceives nobody
+                        for (_s, _d, out_) in (rec1.sent if rec1 is not None else []):
+                            if which == 'request' and len(out_) > 28 and out_[18] == 34 and out_[16] in (33, 41) and any(p_['type'] == codec.SA for p_ in codec.decode(out_, strict_bodies=False)['payloads']):
+                                acted_on.append(bytes(out_[8:16]))
+                            if which == 'response' and len(out_) > 28 and out_[18] == 35:
+                                acted_on.append(bytes(out_[0:8]))
+                        sim.inject(receiver, d.src, d.dst, genuine)
+                        ck.count('mitm.genuine_copy_delivered_behind_the_rewritten_one')
+                        continue
                 else:
                     sim.net.pop(0)        # the rewrite does not apply to this copy: the attacker drops it instead
                     continue
@@ -502,14 +517,20 @@ def mitm_case(ck, seed, conf, which, k, rng):
         pump()
     est_r = established(receiver)
     inst = newsa_count(receiver) - n0
+    if then_genuine:
+        # establishing on the GENUINE copy (after dropping or ignoring the rewritten one) is the honest outcome; only an IKE_SA built on the rewritten copy counts
+        on_altered = [s_ for s_ in receiver.ctl.ike_sas if 10 <= s_.state.value < 21 and bytes(s_.my_spi) in acted_on]
+        ck.count('mitm.then_genuine.' + ('acted_on_the_rewritten_copy' if acted_on else 'rewritten_copy_dropped'))
+        est_r = bool(on_altered)
+        inst = inst if on_altered else 0
     ck.count(f'mitm.{which}.{"semantic" if semantic else "octets-only"}')
-    ck.seen('mitm.rewrites', (which, label))
+    ck.seen('mitm.rewrites', (which, label, then_genuine))
     ck.nontrivial(('mitm', tuple(sorted(conf)), which, label, est_r))
     if est_r or inst:
         kind = 'meaning-changed' if semantic else 'octets-changed'
         ck.violation(f'established-although-ike-sa-init-{which}-was-altered-in-flight:{kind}:{label.split(".")[0]}',
                      {'rewrite': label, 'receiver': receiver.name, 'established': est_r, 'newsa': inst, 'original': orig, 'altered': altered}, sim.case)
-    if established(a) and established(b):
+    if established(a) and established(b) and not (then_genuine and not est_r):
         ck.count('mitm.both_established')
         try:
             if codec.meaning(orig) != codec.meaning(altered):
@@ -673,6 +694,7 @@ def run(ck):
                     n += 1
                     if ck.mine(n):
                         mitm_case(ck, base + n, conf, which, k, ck.rng('mitm', n))
+                        mitm_case(ck, base + n, conf, which, k, ck.rng('mitm', n), then_genuine=True)
     # altered IKE_AUTH messages (bit flips: the ICV must stop them)
     for which in (2, 3):
         for j in range(24 if not thorough else 4000):
@@ -704,6 +726,7 @@ def run(ck):
 
 def verdict(ck):
     c = ck.counters
+    ck.floor('rewritten IKE_SA_INIT messages with the genuine copy delivered right behind', c['mitm.genuine_copy_delivered_behind_the_rewritten_one'], 80)
     ck.floor('half-open IKE_SAs whose unauthenticated peer waited past the DPD interval', c['skipauth.patient_runs'], 1)
     ck.floor('valid impostor controls accepted', c['control.valid_accepted'], 4)
     ck.floor('real initiator AUTH verified by the reference', c['control.real_initiator_auth_verified_by_reference'], 20)
